@@ -21,7 +21,7 @@ func init() {
 	register("C03", "fault_enumeration", 5*time.Minute, 40*time.Minute, runC03)
 }
 
-var c03BodyAtoms = []string{"a", "hello", " ", "  ", "\n", "\r\n", "\x00", "\xff", "\xc3", "é", "世界", "=", "\"", "\\", "2024-01-01T00:00:00Z ", "\t", "x y z", "{\"a\":1}", "\x1b[31m"}
+var c03BodyAtoms = []string{"a", "hello", " ", "  ", "    main()", " \n", "   ", "\n", "\r\n", "\x00", "\xff", "\xc3", "é", "世界", "=", "\"", "\\", "2024-01-01T00:00:00Z ", "\t", "x y z", "{\"a\":1}", "\x1b[31m"}
 
 func genFrames(r *vk.RNG, maxN int) []Frame {
 	n := r.Range(0, maxN)
@@ -261,7 +261,8 @@ func runC03(r *vk.Run) {
 				mod := append([]Frame(nil), frames...)
 				switch kind {
 				case "daemon-error":
-					mod[i] = Frame{Type: 3, Raw: "error from daemon in stream: boom"}
+					// whatever the daemon wrote into it, even nothing but a line break
+					mod[i] = Frame{Type: 3, Raw: vk.Pick(c.Rng, []string{"error from daemon in stream: boom", "\n", " \r\n\t", "x", "Error grabbing logs: EOF\n"})}
 				case "bad-timestamp":
 					mod[i].Raw = vk.Pick(c.Rng, []string{"notatime body", "2024-13-01T00:00:00Z x", "1700000000 x", "2024-01-01 00:00:00 x", "T x",
 						// Docker's own fixed-width shape with one field out of range
@@ -360,6 +361,69 @@ func runC03(r *vk.Run) {
 		c.Nontrivial(fmt.Sprintf("merged|%d", c.Idx))
 	})
 	r.Require("merged_broken_first_frame", 100)
+
+	// fault-free logs of several containers read through one selection: every container's records come
+	// back exactly, in the order the daemon delivered them, also when consecutive records of a container
+	// (the first-listed one included) carry one and the same nanosecond timestamp
+	r.Phase("mergedclean", r.N(300, 60000), func(c *vk.Case) {
+		rng := c.Rng
+		n := rng.Range(2, 4)
+		var inv []CSpec
+		for i := 0; i < n; i++ {
+			cs := CSpec{ID: fmt.Sprintf("id%d", i), Name: fmt.Sprintf("/c%d", i), Image: "img", State: "running", Labels: map[string]string{}}
+			ts := int64(1700000000e9) + int64(rng.Intn(3))*1e9
+			for j := 0; j < rng.Range(0, 7); j++ {
+				if !rng.Chance(1, 3) {
+					ts += int64(rng.Range(1, 2000)) * 1e6
+				}
+				body := fmt.Sprintf("c%d#%d %s", i, j, vk.Pick(rng, []string{"panic: boom", "goroutine 1 [running]:", "", " lead", "x\ty"}))
+				if !rng.Chance(1, 4) {
+					body += "\n"
+				}
+				cs.Frames = append(cs.Frames, Frame{Type: byte(1 + rng.Intn(2)), TS: ts, Body: body})
+			}
+			inv = append(inv, cs)
+		}
+		recs, openErr, iterErr := drainSelect(newFakeDocker(inv))
+		c.Eval(1)
+		det := map[string]any{"inventory": inv, "delivered": recs}
+		if openErr != nil || iterErr != nil {
+			c.Fail("", fmt.Sprintf("fault-free logs of %d containers: open err %v, read err %v", n, openErr, iterErr), det)
+			return
+		}
+		next := map[string]int{}
+		byID := map[string]CSpec{}
+		for _, cs := range inv {
+			byID[cs.ID] = cs
+		}
+		for pos, r := range recs {
+			cs, ok := byID[r.CID]
+			k := next[r.CID]
+			if !ok || k >= len(cs.Frames) || cs.Frames[k].TS != r.TS || cs.Frames[k].Body != r.Line {
+				c.Fail("", fmt.Sprintf("position %d: container %q delivered (%d, %q) where its record #%d is expected", pos, r.CID, r.TS, r.Line, k), det)
+				return
+			}
+			next[r.CID] = k + 1
+		}
+		ties := 0
+		for _, cs := range inv {
+			if next[cs.ID] != len(cs.Frames) {
+				c.Fail("", fmt.Sprintf("container %s: %d of %d records delivered", cs.ID, next[cs.ID], len(cs.Frames)), det)
+				return
+			}
+			for j := 1; j < len(cs.Frames); j++ {
+				if cs.Frames[j].TS == cs.Frames[j-1].TS {
+					ties++
+				}
+			}
+		}
+		c.Count("merged_clean_streams", 1)
+		if ties > 0 {
+			c.Count("merged_clean_with_repeated_timestamps", 1)
+			c.Nontrivial(fmt.Sprintf("mergedclean|%d", c.Idx))
+		}
+	})
+	r.Require("merged_clean_with_repeated_timestamps", 100)
 
 	r.Phase("readerr", r.N(100, 40000), func(c *vk.Case) {
 		frames := genFrames(c.Rng, 6)
